@@ -116,6 +116,15 @@ def load_variants(prop):
                 if prop in v.get("properties", []):
                     v["name"] = v.get("name") or os.path.basename(p)
                     out.append(v)
+    for d in sorted(glob.glob(os.path.join(VERIF, "neutral", "*"))):
+        mp = os.path.join(d, "meta.json")
+        pp = os.path.join(d, "patch.diff")
+        if not (os.path.exists(mp) and os.path.exists(pp)):
+            continue
+        with open(mp) as fh:
+            m = json.load(fh)
+        if prop in m.get("properties", []):
+            out.append({"name": "neutral/" + os.path.basename(d), "patch": pp, "expect": "silent", "properties": m["properties"]})
     for d in sorted(glob.glob(os.path.join(VERIF, "seeded", "*"))):
         mp = os.path.join(d, "meta.json")
         pp = os.path.join(d, "patch.diff")
